@@ -29,6 +29,15 @@ func C10(r *Run) *core.Report {
 	c10H2H3(r, rep)
 	c10H4(r, rep)
 	c10H5(r, rep)
+	// H6: a stored entry lands in the slot that was matched or found free for *this* key - never in a slot of another
+	// bucket, where it would replace a different key's entry (the slot pairing rule P14 of the compute core)
+	n6 := 0
+	for i, mm := range r.M.Maps {
+		tmp := core.NewReport("C10")
+		p3p5Core(r, tmp, []string{"C03", "C04"}[i], mm)
+		n6 += borrow(rep, tmp, "C10.H6", "C03.P14", "C04.P14")
+	}
+	rep.MinCount("C10.H6", "slot pairing obligations", n6, 4)
 	return rep
 }
 
